@@ -391,7 +391,7 @@ func (m *monitor) age(c cfg, hv hitVerdict, hit bool) {
 
 func (m *monitor) phaseSeparation() {
 	r := m.r
-	nBases := r.N(20, 120)
+	nBases := r.N(20, 320)
 	for _, c := range seqCfgs {
 		for bi := 0; bi < nBases; bi++ {
 			rng := r.Rand("sep/"+c.String(), bi)
@@ -432,7 +432,7 @@ func (m *monitor) phaseSeparation() {
 		}
 	}
 	// random histories over a base and all its variants
-	nHist := r.N(50, 400)
+	nHist := r.N(50, 1500)
 	for _, c := range seqCfgs {
 		for hi := 0; hi < nHist; hi++ {
 			rng := r.Rand("hist/"+c.String(), hi)
@@ -481,8 +481,8 @@ func cacheClasses() (cs []cacheClass) {
 		{Class: "noerror-other-type-without-soa", Kind: "wrongtype", Params: "t300", Forbid: true},
 		{Class: "ttl-0-answer", Kind: "ans", Params: "t0", Forbid: true, NoOvr: true},
 		{Class: "ttl-0-answer-rrset", Kind: "ans", Params: "t0c3", Forbid: true, NoOvr: true},
-		{Class: "ttl-0-additional", Kind: "ans", Params: "t300n300x0", Forbid: true, NoOvr: true},
-		{Class: "ttl-0-authority", Kind: "ans", Params: "t300n0x300", Forbid: true, NoOvr: true},
+		{Class: "info-ttl-0-additional-only", Kind: "ans", Params: "t300n300x0"},
+		{Class: "info-ttl-0-authority-only", Kind: "ans", Params: "t300n0x300"},
 		{Class: "ttl-0-nxdomain-soa", Kind: "nx", Params: "t0", Forbid: true, NoOvr: true},
 		{Class: "ttl-0-nodata-soa", Kind: "nodata", Params: "t0", Forbid: true, NoOvr: true},
 		{Class: "ttl-0-servfail-soa", Kind: "sfrec", Params: "t0", Forbid: true, NoOvr: true},
@@ -511,7 +511,7 @@ func cacheClasses() (cs []cacheClass) {
 
 func (m *monitor) phaseCacheability() {
 	r := m.r
-	reps := r.N(1, 6)
+	reps := r.N(1, 8)
 	idx := 0
 	for _, c := range seqCfgs {
 		for _, cc := range cacheClasses() {
@@ -551,7 +551,7 @@ func (m *monitor) phaseCacheability() {
 					default:
 						r.Bucket(fmt.Sprintf("info:%s:hits=%d", cc.Class, res.hits), 1)
 					}
-					r.Eval(fmt.Sprintf("cacheability/%s/%s/%d", c, cc.Class, qt), true)
+					r.Eval(fmt.Sprintf("cacheability/%s/%s/%d", c, cc.Class, qt), forbid != "" || res.hits > 0)
 					if idx == 3 || cc.Class == "control-servfail-soa-3600" && qt == dns.TypeA && rep == 0 && c == cfgECS {
 						r.Sample(map[string]any{"phase": "cacheability", "config": c, "class": cc.Class, "history": views(res.warm)})
 					}
@@ -655,8 +655,8 @@ func genAgeCase(r *vkit.Run, c cfg, i int) *ageCase {
 
 func (m *monitor) phaseAges() {
 	r := m.r
-	perCfg := r.N(120, 600)
-	waves := r.N(1, 2)
+	perCfg := r.N(120, 700)
+	waves := r.N(1, 6)
 	for wave := 0; wave < waves; wave++ {
 		var cases []*ageCase
 		shared := map[cfg]*instance{}
@@ -764,94 +764,104 @@ func (m *monitor) phaseConcurrent() {
 	r := m.r
 	workers := r.N(16, 48)
 	ops := r.N(260, 1000)
+	rounds := r.N(1, 5)
 	var wgAll sync.WaitGroup
 	for ci, c := range []cfg{cfgSimple, ageCfgs[1], cfgECS, ageCfgs[3]} {
 		wgAll.Add(1)
 		go func(ci int, c cfg) {
 			defer wgAll.Done()
-			rng := r.Rand("conc/"+c.String(), 0)
-			// alphabet: a few short-lived names with all their single-dimension variants
-			var alphabet []query
-			names := []string{"ans.t1c2", "ans.t2n3x4", "ans.t1s", "nx.t1", "nodata.t2m1", "cname.t2", "ans.t60c3s", "sfrec.t3600"}
-			if c.ecs() {
-				names = append(names, "ans.t1e16", "ans.t2e24s", "ans.t60e16", "ans.t2z")
+			for round := 0; round < rounds; round++ {
+				m.concurrentRound(c, ci, round, workers, ops)
 			}
-			for ni, n := range names {
-				b, _ := genBase(rng, c, "x")
-				b.Name = fmt.Sprintf("%s.w%d.%s", n, ni, zone)
-				b.Qtype = pick(rng, []uint16{dns.TypeA, dns.TypeAAAA, dns.TypeTXT, dns.TypeHTTPS})
-				b.Qclass = dns.ClassINET
-				alphabet = append(alphabet, b)
-				for _, v := range variants(rng, c, b) {
-					if v.Dim == "name" || v.Dim == "qclass" {
-						continue
-					}
-					alphabet = append(alphabet, v.Q)
-				}
-			}
-			twins := make([]*probe, len(alphabet))
-			for i, q := range alphabet {
-				twins[i] = newInstance(c, 8).do(q, 1)
-			}
-			in := newInstance(c, 8192)
-			type rec struct {
-				ai int
-				p  *probe
-			}
-			results := make([][]rec, workers)
-			var wg sync.WaitGroup
-			for w := 0; w < workers; w++ {
-				wg.Add(1)
-				go func(w int) {
-					defer wg.Done()
-					wr := r.Rand(fmt.Sprintf("conc/%s/worker", c), w)
-					for i := 0; i < ops; i++ {
-						ai := wr.IntN(len(alphabet))
-						results[w] = append(results[w], rec{ai, in.do(alphabet[ai], nextID())})
-						if wr.IntN(4) != 0 {
-							time.Sleep(time.Duration(wr.IntN(16000)) * time.Microsecond)
-						}
-					}
-				}(w)
-			}
-			wg.Wait()
-			jc := judgeCtx{Phase: "concurrent", Case: ci, Label: "shared-instance", Cfg: c, Dim: "concurrent"}
-			hitElems := map[int]bool{}
-			for w := range results {
-				for _, x := range results[w] {
-					p, tw := x.p, twins[x.ai]
-					r.Bucket("responses_"+c.Cache, 1)
-					if p.Panic != "" {
-						r.Violation(c.Cache+":panic", "the cache middleware panicked on a legal request", map[string]any{"ctx": jc, "probe": view(p)})
-						continue
-					}
-					if tw.UpCalls != 1 {
-						r.Bucket("fresh_twin_unusable", 1)
-						continue
-					}
-					t2 := *tw
-					t2.C.ID = p.C.ID
-					if !p.fromCache() {
-						r.Bucket("concurrent_misses_"+c.Cache, 1)
-						if d := diff(p.C, t2.C); d != "" {
-							r.Violation(c.Cache+":miss-differs-from-fresh:"+d,
-								"a response the warm instance fetched from the (pure) upstream differs from the fresh instance's response to the same request",
-								map[string]any{"ctx": jc, "warm": view(p), "fresh": view(&t2)})
-						}
-						r.Eval(fmt.Sprintf("concurrent/%s/%d", c, x.ai), false)
-						continue
-					}
-					r.Bucket("concurrent_hits_"+c.Cache, 1)
-					hitElems[x.ai] = true
-					m.judgeEqual(jc, p, &t2, nil)
-					m.judgeHit(jc, p, tw, in.up.fillsFor(fullKey(p.Q, tw.Dep)), nil)
-					r.Eval(fmt.Sprintf("concurrent/%s/%d", c, x.ai), true)
-				}
-			}
-			r.Bucket("concurrent_alphabet_elements_hit", int64(len(hitElems)))
 		}(ci, c)
 	}
 	wgAll.Wait()
+}
+
+func (m *monitor) concurrentRound(c cfg, ci, round, workers, ops int) {
+	r := m.r
+	rng := r.Rand("conc/"+c.String(), round)
+	// alphabet: a few short-lived names with all their single-dimension variants
+	var alphabet []query
+	names := []string{"ans.t1c2", "ans.t2n3x4", "ans.t1s", "nx.t1", "nodata.t2m1", "cname.t2", "ans.t60c3s", "sfrec.t3600"}
+	if c.ecs() {
+		names = append(names, "ans.t1e16", "ans.t2e24s", "ans.t60e16", "ans.t2z")
+	}
+	for ni, n := range names {
+		b, _ := genBase(rng, c, "x")
+		b.Name = fmt.Sprintf("%s.w%d.%s", n, ni, zone)
+		b.Qtype = pick(rng, []uint16{dns.TypeA, dns.TypeAAAA, dns.TypeTXT, dns.TypeHTTPS})
+		b.Qclass = dns.ClassINET
+		alphabet = append(alphabet, b)
+		for _, v := range variants(rng, c, b) {
+			if v.Dim == "name" || v.Dim == "qclass" {
+				continue
+			}
+			alphabet = append(alphabet, v.Q)
+		}
+	}
+	twins := make([]*probe, len(alphabet))
+	for i, q := range alphabet {
+		twins[i] = newInstance(c, 8).do(q, 1)
+	}
+	in := newInstance(c, 8192)
+	type rec struct {
+		ai int
+		p  *probe
+	}
+	results := make([][]rec, workers)
+	var wg sync.WaitGroup
+	for w := 0; w < workers; w++ {
+		wg.Add(1)
+		go func(w int) {
+			defer wg.Done()
+			wr := r.Rand(fmt.Sprintf("conc/%s/%d/worker", c, round), w)
+			for i := 0; i < ops; i++ {
+				ai := wr.IntN(len(alphabet))
+				p := in.do(alphabet[ai], nextID())
+				p.Resp = nil // only the canonical form is needed; bounds memory
+				results[w] = append(results[w], rec{ai, p})
+				if wr.IntN(4) != 0 {
+					time.Sleep(time.Duration(wr.IntN(16000)) * time.Microsecond)
+				}
+			}
+		}(w)
+	}
+	wg.Wait()
+	jc := judgeCtx{Phase: "concurrent", Case: ci*1000 + round, Label: "shared-instance", Cfg: c, Dim: "concurrent"}
+	hitElems := map[int]bool{}
+	for w := range results {
+		for _, x := range results[w] {
+			p, tw := x.p, twins[x.ai]
+			r.Bucket("responses_"+c.Cache, 1)
+			if p.Panic != "" {
+				r.Violation(c.Cache+":panic", "the cache middleware panicked on a legal request", map[string]any{"ctx": jc, "probe": view(p)})
+				continue
+			}
+			if tw.UpCalls != 1 {
+				r.Bucket("fresh_twin_unusable", 1)
+				continue
+			}
+			t2 := *tw
+			t2.C.ID = p.C.ID
+			if !p.fromCache() {
+				r.Bucket("concurrent_misses_"+c.Cache, 1)
+				if d := diff(p.C, t2.C); d != "" {
+					r.Violation(c.Cache+":miss-differs-from-fresh:"+d,
+						"a response the warm instance fetched from the (pure) upstream differs from the fresh instance's response to the same request",
+						map[string]any{"ctx": jc, "warm": view(p), "fresh": view(&t2)})
+				}
+				r.Eval(fmt.Sprintf("concurrent/%s/%d", c, x.ai), false)
+				continue
+			}
+			r.Bucket("concurrent_hits_"+c.Cache, 1)
+			hitElems[x.ai] = true
+			m.judgeEqual(jc, p, &t2, nil)
+			m.judgeHit(jc, p, tw, in.up.fillsFor(fullKey(p.Q, tw.Dep)), nil)
+			r.Eval(fmt.Sprintf("concurrent/%s/%d", c, x.ai), true)
+		}
+	}
+	r.Bucket("concurrent_alphabet_elements_hit", int64(len(hitElems)))
 }
 
 // ---------------------------------------------------------------------------
@@ -935,10 +945,10 @@ func TestCheck(t *testing.T) {
 		r.Require("age_hits_in_last_half_second_"+cn, 8)
 		r.Require("age_hits_mid_life_"+cn, 8)
 		r.Require("concurrent_hits_"+cn, 500)
-		r.Require("concurrent_misses_"+cn, 50)
+		r.Require("concurrent_misses_"+cn, 15)
 	}
 	for _, d := range []string{"name", "qtype", "qclass", "do", "client-location", "ecs-location"} {
-		r.Require("separation_observed:"+d, 5)
+		r.Require("separation_observed:"+d, 3)
 	}
 	for _, d := range []string{"name-case", "ad", "cd", "rd", "edns-presence", "ecs-subnet"} {
 		r.Require("shared_hit_observed:"+d, 3)
